@@ -61,7 +61,7 @@ fn is_exn(v: &ValType) -> bool {
 // @harness props=C01,C02 tier=quick timeout=600
 #[kani::proof]
 #[kani::stub(alloc::fmt::format, crate::kh::no_format)]
-#[kani::unwind(4)]
+#[kani::unwind(10)]
 fn conv_valtype_parse_then_encode() {
     let v = any_valtype();
     let dt = DataType::from(v);
@@ -79,7 +79,7 @@ fn conv_valtype_parse_then_encode() {
 // @harness props=C01,C02,C30 tier=quick timeout=600
 #[kani::proof]
 #[kani::stub(alloc::fmt::format, crate::kh::no_format)]
-#[kani::unwind(4)]
+#[kani::unwind(10)]
 fn conv_valtype_wasmparser_roundtrip() {
     let v = any_valtype();
     let back = ValType::from(&DataType::from(v));
@@ -135,7 +135,7 @@ fn any_api_datatype() -> DataType {
 // @bounds all 30 API-visible DataType variants (I8/I16 storage-only, RecGroup, CoreTypeId, Cont, NoCont excluded), module type index < 2^20
 #[kani::proof]
 #[kani::stub(alloc::fmt::format, crate::kh::no_format)]
-#[kani::unwind(4)]
+#[kani::unwind(10)]
 fn conv_datatype_encoders_agree() {
     let dt = any_api_datatype();
     let via_parser = RoundtripReencoder.val_type(ValType::from(&dt)).unwrap();
@@ -151,7 +151,7 @@ fn conv_datatype_encoders_agree() {
 // @harness props=C01,C02,C13 tier=quick timeout=600
 #[kani::proof]
 #[kani::stub(alloc::fmt::format, crate::kh::no_format)]
-#[kani::unwind(4)]
+#[kani::unwind(10)]
 fn conv_storage_type() {
     let s: u8 = kani::any();
     let st = match s % 3 {
@@ -170,7 +170,7 @@ fn conv_storage_type() {
 // @harness props=C12,C24 tier=quick timeout=600
 #[kani::proof]
 #[kani::stub(alloc::fmt::format, crate::kh::no_format)]
-#[kani::unwind(4)]
+#[kani::unwind(10)]
 fn conv_block_type() {
     let s: u8 = kani::any();
     let bt = match s % 3 {
